@@ -1,6 +1,6 @@
 SPECIFICATION Spec
 CONSTANTS Kind = "ints"
- NMax = 40
+ NMax = 25
  DMax = 0
  LMax = 0
  ScaleSet = {0}
